@@ -27,6 +27,55 @@ theorem last_release_schedules (n : Int) (hn : 0 < n) : (removeCountPure n n fal
   have h0 : (n != 0) = true := by simp; omega
   simp [removeCountPure, h0]
 
+/-- Every sequence of operations under well-formed use keeps the invariant and never panics:
+    the one-step theorem lifted to all histories of one cache entry. -/
+def runOps : Cnt → List CntOp → Option Cnt
+  | c, [] => some c
+  | c, op :: ops => match c.step op with
+    | some c' => runOps c' ops
+    | none => none
+
+/-- `WellUsed c ops`: no release exceeds the uses held at that moment. -/
+def WellUsed : Cnt → List CntOp → Prop
+  | _, [] => True
+  | c, op :: ops =>
+    (match op with | .add => True | .remove n => 0 < n ∧ n ≤ c.count) ∧
+    ∀ c', c.step op = some c' → WellUsed c' ops
+
+theorem count_run (c : Cnt) (h : c.Inv) (ops : List CntOp) (hw : WellUsed c ops) :
+    ∃ c', runOps c ops = some c' ∧ c'.Inv := by
+  induction ops generalizing c with
+  | nil => exact ⟨c, rfl, h⟩
+  | cons op ops ih =>
+    obtain ⟨hop, hrest⟩ := hw
+    obtain ⟨c1, hs, h1, h2, h3⟩ := Cnt.step_inv c h op hop
+    have hinv : c1.Inv := ⟨h2, ⟨h3, h1⟩⟩
+    obtain ⟨c2, hr, hi⟩ := ih c1 hinv (hrest c1 hs)
+    exact ⟨c2, by simp [runOps, hs, hr], hi⟩
+
+/-- What the eviction timer does with an entry (`Cache.mqUnsubscribe`): the entry is removed iff
+    it was queued for eviction and still has no user; its event subscription is then released iff
+    it had one. Together with the invariant (queued ⇒ count = 0, and a new user un-queues it) an
+    entry is evicted exactly when its last user is gone for the whole delay. -/
+theorem evict_iff (count : Int) (pending mqSub : Bool) (u : Bool) :
+    evictDecision count pending mqSub = some u ↔ pending = true ∧ count ≤ 0 ∧ u = mqSub := by
+  unfold evictDecision
+  cases pending
+  · simp
+  · by_cases h : count > 0
+    · simp only [if_true, h]
+      constructor
+      · intro e; cases e
+      · intro e; omega
+    · simp only [if_true, h, if_false, Option.some.injEq, true_and]
+      constructor
+      · intro e; exact ⟨by omega, e.symm⟩
+      · intro e; exact e.2.symm
+
+theorem used_entry_stays (count : Int) (pending mqSub : Bool) (h : 0 < count) :
+    evictDecision count pending mqSub = none := by
+  unfold evictDecision; cases pending <;> simp [h]
+
 example : (⟨1, false⟩ : Cnt).Inv := by simp [Cnt.Inv]
 
 end Resgate.C09
